@@ -31,6 +31,8 @@ inductive Clause
   | connFrames           -- a started connection did not deliver exactly the messages of the leading well-formed frames, in order
   | connEnds             -- a started connection did not shut itself down after the peer's end of stream
   | stateRestore         -- a well-framed state file was refused, or its one applicable record did not arrive in the object
+  | stateRoundtrip       -- a state file written by DumpObjects was refused by RestoreObjects, or an object did not get back the value it held
+  | tlsAllocBounded      -- a read from the network allocated a buffer larger than the limit declared for it
   deriving Repr, DecidableEq
 
 def Clause.name : Clause → String
@@ -44,6 +46,7 @@ def Clause.name : Clause → String
   | .tlsViolationNotRejected => "tlsViolationNotRejected"
   | .connUnauthLimit => "connUnauthLimit" | .connFrames => "connFrames" | .connEnds => "connEnds"
   | .stateRestore => "stateRestore"
+  | .stateRoundtrip => "stateRoundtrip" | .tlsAllocBounded => "tlsAllocBounded"
 
 /-! ### frames from the network -/
 
@@ -142,6 +145,22 @@ def tlsRejectSpec (max : Option Nat) (bs : Bytes) (o : TlsObs) : Option Clause :
     | .err _ => none
     | _ => some .tlsViolationNotRejected
   else none
+
+/-- Bytes a read may allocate beside the payload buffer (exception objects, message texts, handler frames, a scratch
+    buffer of whatever size an implementation likes to read through): generous, the clause is about allocations that
+    follow the DECLARED length instead of the limit. -/
+def allocSlack : Nat := 262144
+
+/-- The largest payload the format allows: a length field has at most nine digits. -/
+def formatMaxLen : Nat := 10 ^ 9 - 1
+
+/-- "… or allocating beyond the declared limits": whatever the stream contains, no single allocation made while a frame
+    is read from the network is larger than the limit declared for the connection (without a limit: than the largest
+    length the format can express), apart from `allocSlack` of bookkeeping.  `alloc` = the largest single allocation
+    observed during the read. -/
+def tlsAllocSpec (max : Option Nat) (alloc : Nat) : Option Clause :=
+  let limit := match max with | some m => m | none => formatMaxLen
+  if alloc ≤ limit + allocSlack then none else some .tlsAllocBounded
 
 def obsOfTls (r : TlsResult) : TlsObs :=
   match r.out with
